@@ -322,6 +322,107 @@ func runC42(p *core.Prog, r *core.Report) {
 			}
 		}
 	}
+	// ---------------- R6 the recount that ends both migration steps agrees with the incremental accounting
+	r6 := r.Rule("C42.R6", "the counter recount run at the end of the migration uses the same availability predicate as the incremental accounting (shared with C02.R9): the upgrade does not change what the counters report", 1)
+	recountAgreesWithMarking(p, r, r6)
+	// ---------------- R7 no way into read-write around the version check
+	r7 := r.Rule("C42.R7", "DB.SetMode succeeds for a read-write target only after a call whose every success has passed checkVersion()==nil — whatever mode was recorded before (an init that is a no-op in the OLD mode does not count)", 2)
+	if sm := p.Func(mbDB + "SetMode"); sm == nil {
+		r.Fatalf("C42.R7: DB.SetMode not found")
+	} else {
+		isCV := func(s core.Site) bool { return s.Name == mbDB+"checkVersion" }
+		checksVersion := func(cal *ssa.Function) bool {
+			if cal == nil || cal.Blocks == nil {
+				return false
+			}
+			gs := []core.Guard{
+				{Name: "version-checked", Match: isCV, Comps: []core.Comp{{Result: -1, Kind: core.ErrNil}}},
+				{Name: "explicit-reset", Pure: true, Comps: []core.Comp{{Result: -1, Kind: core.IsTrue}}, Value: func(f *ssa.Function, v ssa.Value) bool {
+					return core.ParamIndex(f, v) >= 0 && v.Type().String() == "bool"
+				}},
+			}
+			return len(core.CallSites([]*ssa.Function{cal}, isCV)) > 0 && core.SuccessHolds(p, cal, core.SuccessRule{ResultIdx: -1, Guards: gs,
+				Derived: []core.Derived{{Name: "checked-or-reset", Alts: [][]string{{"version-checked"}, {"explicit-reset"}}}}, Need: []string{"checked-or-reset"}})
+		}
+		// (1) a call that cannot succeed without the version check
+		var vc *ssa.Call
+		for _, cs := range core.CallSites([]*ssa.Function{sm}, func(s core.Site) bool { return isCV(s) || checksVersion(core.StaticCallee(s.Call)) }) {
+			if c, ok := cs.Call.(*ssa.Call); ok {
+				vc = c
+			}
+		}
+		id := core.FuncName(sm) + "#read-write-target"
+		if vc == nil {
+			r7.Bad(id+"!version-checked", p.Pos(sm.Pos()), "SetMode contains no call whose success implies checkVersion()==nil independently of the recorded mode (an init that returns early in the OLD mode does not count): a database of an older format opened read-only or degraded is switched to read-write without the upgrade")
+		} else {
+			// (2) it is conditional only on: earlier errors, the target mode, 'mode unchanged'
+			allowed := func(v ssa.Value) bool {
+				var ok func(v ssa.Value, d int) bool
+				ok = func(v ssa.Value, d int) bool {
+					if d == 0 {
+						return false
+					}
+					switch x := v.(type) {
+					case *ssa.BinOp:
+						if c, isC := x.Y.(*ssa.Const); isC && c.IsNil() {
+							return true
+						}
+						return core.ParamIndex(sm, x.X) == 1 || core.ParamIndex(sm, x.Y) == 1
+					case *ssa.Call:
+						n := core.CalleeName(x)
+						return (n == "(pkg/local_object_storage/shard/mode.Mode).NoMetabase" || n == "(pkg/local_object_storage/shard/mode.Mode).ReadOnly") && core.ParamIndex(sm, x.Call.Args[0]) == 1
+					case *ssa.UnOp:
+						return x.Op.String() == "!" && ok(x.X, d-1)
+					case *ssa.Phi:
+						for _, e := range x.Edges {
+							if _, isK := e.(*ssa.Const); !isK && !ok(e, d-1) {
+								return false
+							}
+						}
+						return true
+					}
+					return false
+				}
+				return ok(v, 4)
+			}
+			bad := ""
+			for _, b := range sm.Blocks {
+				iff, isIf := b.Instrs[len(b.Instrs)-1].(*ssa.If)
+				if !isIf || !b.Dominates(vc.Block()) || b == vc.Block() {
+					continue
+				}
+				ctl := false
+				for _, sc := range b.Succs {
+					if len(sc.Preds) == 1 && sc.Dominates(vc.Block()) {
+						ctl = true
+					}
+				}
+				if ctl && !allowed(iff.Cond) {
+					bad = "the version check is made conditional on " + iff.Cond.String() + " at " + p.InstrPos(iff)
+				}
+			}
+			r7.Check(bad == "", id+"!version-checked", p.InstrPos(vc), "the version check depends only on earlier errors and on the TARGET mode", bad+": it can be skipped for a read-write target")
+			// (3) its error decides the outcome
+			okFlow := false
+			for _, blk := range sm.Blocks {
+				ifi, isIf := blk.Instrs[len(blk.Instrs)-1].(*ssa.If)
+				if !isIf {
+					continue
+				}
+				bo, isB := ifi.Cond.(*ssa.BinOp)
+				if !isB {
+					continue
+				}
+				if c, isC := bo.Y.(*ssa.Const); !isC || !c.IsNil() {
+					continue
+				}
+				if reaches(vc.Block(), blk) && flowsTo(vc, bo.X, 6) {
+					okFlow = true
+				}
+			}
+			r7.Check(okFlow, id+"!version-check-error-decides", p.InstrPos(vc), "the version check's error is tested before success is reported", "the error of the version check is not tested: a failed upgrade is reported as a successful mode switch")
+		}
+	}
 }
 
 // closureFn: the function behind a func-typed argument (closure with or without captures).
